@@ -369,9 +369,10 @@ func (gi *gitlabImporter) ensurePerson(repo *cache.RepoCache, id int) (*cache.Id
 	}
 
 	i, err = repo.Identities().NewRaw(
-		user.Name,
-		user.PublicEmail,
-		user.Username,
+		// whatever the tracker holds: control characters would make the identity invalid
+		text.CleanupOneLine(user.Name),
+		text.CleanupOneLine(user.PublicEmail),
+		text.CleanupOneLine(user.Username),
 		user.AvatarURL,
 		nil,
 		map[string]string{
